@@ -1,6 +1,7 @@
 package main
 
 import (
+	"context"
 	"fmt"
 	"sort"
 	"strings"
@@ -159,7 +160,7 @@ func checkSeqResponses(h *seqHarness, x *vs.Exec) []Viol {
 			switch mem.Kind {
 			case 'n', 'h', 'z':
 				Hit("C01.R8")
-				if x.Outcome == "ok" && (n != 1 || len(exits[mem.Method]) != 1) {
+				if x.Outcome == "ok" && (n != 1 || len(exits[mem.Method]) != 1) && !(h.baseCtx && n == 0) {
 					v = append(v, Viol{"C01.R8", fmt.Sprintf("notification %s: handler ran %d times", mem.Method, n)})
 				}
 			case 'v', 'u', 'x', 'y':
@@ -197,6 +198,13 @@ func checkSeqResponses(h *seqHarness, x *vs.Exec) []Viol {
 						if !ok {
 							v = append(v, Viol{"C01.R7", fmt.Sprintf("%s: no handler ran, but no protocol error was sent for id %s", mem.Method, id)})
 						}
+					}
+					continue
+				}
+				if h.baseCtx && n == 0 {
+					// the base context ended before the call got its turn: no handler, but still exactly one (error) response
+					if _, isE := rs[0].ErrCode(); !isE {
+						v = append(v, Viol{"C01.R7", fmt.Sprintf("call %s: no handler ran, yet the response is not an error: %s", mem.Method, rs[0].Raw)})
 					}
 					continue
 				}
@@ -289,6 +297,52 @@ func c01Restart(tokens []string, conc int, b Bounds) *Scenario {
 	}
 }
 
+// c01BaseCtx: the context every request context derives from (ServerOptions.NewContext) ends at an
+// arbitrary moment while the first call is parked in its handler and later requests are waiting;
+// the connection stays up, so every call must still get exactly one response.
+func c01BaseCtx(tokens []string, conc int, b Bounds) *Scenario {
+	return &Scenario{
+		Name:   fmt.Sprintf("seq{%s} conc=%d +base context ends", tokensName(tokens), conc),
+		Params: map[string]any{"messages": tokens, "concurrency": conc, "base_context_cancelled": true},
+		Bounds: b,
+		New: func() *Instance {
+			h := &seqHarness{msgs: buildSeq(tokens), gates: NewGates(), baseCtx: true}
+			body := func() {
+				lib, peer, pipe := NewPipe(PipeOpts{Name: "srv", CloseUnblocksRecv: true})
+				h.pipe, h.peer = pipe, peer
+				base, cancel := context.WithCancel(context.Background())
+				defer cancel()
+				srv := jrpc2.NewServer(anyAssigner{h.handler()}, &jrpc2.ServerOptions{Concurrency: conc, NewContext: func() context.Context { return base }})
+				h.srv = srv
+				srv.Start(lib)
+				vs.GoNamed("peer", func() {
+					for i, m := range h.msgs {
+						peer.Send([]byte(m.JSON))
+						vs.Note("in", fmt.Sprint(i))
+					}
+					vs.AwaitQuiescence()
+					for _, m := range h.msgs {
+						for _, mem := range m.Members {
+							if mem.Kind == 'g' || mem.Kind == 'h' {
+								h.gates.Open(mem.Method)
+							}
+						}
+					}
+					vs.AwaitQuiescence()
+					vs.Note("quiet")
+					peer.Close()
+				})
+				vs.GoNamed("basectx", func() { vs.Event("env", "basectx"); cancel() })
+				st := srv.WaitStatus()
+				vs.Note("status", fmt.Sprintf("stopped=%v closed=%v err=%v", st.Stopped, st.Closed, st.Err))
+			}
+			return &Instance{Body: body, Check: func(x *vs.Exec) []Viol {
+				return append(genericRules(x, nil), checkSeqResponses(h, x)...)
+			}}
+		},
+	}
+}
+
 func c01Seq(tokens []string, conc int, b Bounds) *Scenario {
 	return &Scenario{
 		Name:   fmt.Sprintf("seq{%s} conc=%d", tokensName(tokens), conc),
@@ -328,6 +382,9 @@ func c01Scenarios(tier string) []*Scenario {
 		out = append(out, c01Seq([]string{"n", "c"}, 1, Bounds{2, -1, 0}), c01Seq([]string{"[nc]", "[cn]"}, 1, Bounds{1, -1, 0}))
 		out = append(out, c01Seq([]string{"c", "n", "c"}, 2, Bounds{1, -1, 0}))
 		out = append(out, c01Restart([]string{"c"}, 2, Bounds{2, -1, 1}), c01Restart([]string{"c", "c"}, 2, Bounds{1, -1, 1}), c01Restart([]string{"n", "c"}, 1, Bounds{1, -1, 1}))
+		for _, p := range [][]string{{"g", "n", "c"}, {"g", "c", "c"}} {
+			out = append(out, c01BaseCtx(p, 1, Bounds{1, -1, 0}))
+		}
 		return out
 	}
 	for _, a := range c01Alphabet {
@@ -351,6 +408,10 @@ func c01Scenarios(tier string) []*Scenario {
 	for _, p := range [][]string{{"c"}, {"n"}, {"c", "c"}, {"n", "c"}, {"[cn]", "c"}} {
 		out = append(out, c01Restart(p, 2, Bounds{2, -1, 1}))
 	}
+	for _, p := range [][]string{{"g", "n", "c"}, {"g", "c", "c"}, {"g", "[nc]", "c"}, {"g", "[nn]", "c"}, {"g", "n", "n"}, {"g", "[cn]", "n"}} {
+		out = append(out, c01BaseCtx(p, 1, Bounds{2, -1, 0}))
+	}
+	out = append(out, c01BaseCtx([]string{"g", "g", "n", "c"}, 2, Bounds{2, -1, 0}), c01BaseCtx([]string{"c", "n", "c"}, 2, Bounds{2, -1, 0}))
 	sub := []string{"c", "n", "[cn]", "[cc]", "d", "y", "z"}
 	for _, a := range sub {
 		for _, b := range sub {
